@@ -95,9 +95,11 @@ pub fn c14_case(max_n: f64) -> BoxedStrategy<C14Case> {
             Some((b, x)) => (b, Some(x)),
             None => (base, None),
         };
-        let base = if (t.min(10.0) as f64) * (fs as f64) > 60_000.0 { 0.0 } else { base };
+        // a fifth of the cases reach the level with the glide switched off and select the time right before the step
+        let off_first = if (1..=4).contains(&sel) && t >= 0.06 && base != 0.0 && huge.is_none() { 5 + 3 * sel as u8 } else { 0 };
+        let base = if off_first == 0 && (t.min(10.0) as f64) * (fs as f64) > 60_000.0 { 0.0 } else { base };
         let target = target.map(|x| if x == base { 3e38 } else { x });
-        C14Case::Step { fs, t, base, delta, target }
+        C14Case::Step { fs, t, base, delta, target, off_first }
     });
     let fast = (sample_rate(48_000.0), prop_oneof![1 => Just(0.0f64), 4 => 0.0f64..0.999], base_delta(), proptest::option::weighted(0.08, huge_step())).prop_map(|(fs, u, (base, delta), huge)| C14Case::Fast {
         fs,
@@ -172,7 +174,7 @@ pub fn c13(quick: bool, seed: u64) -> Outcome {
 
 pub fn c14(quick: bool, seed: u64) -> Outcome {
     let mut o = Outcome::new(
-        "proptest cases of four kinds: Step (fresh processor, set_time(t) with t*fs log-uniform in [100, Nmax], settle at base in {0, U[-1,1], U[-10,10]}, step by {1, +-U[0.01,10]} - or, in 8% of the Step and Fast cases, a step between huge values of either sign (+-1e19..+-f32::MAX, also larger than f32::MAX across zero) -: coverage at sample round(t*fs/10) in [0.40,0.55] and at ceil(t*fs) >= 0.995; 1 in 20 with t beyond the 10 s clamp), Fast (t = u*2/fs incl. 0: within 0.5% after 8 samples), Long (t in (10,1000]: sample-for-sample equal to t = 10), History (1..40 set_time calls: absolute times and creep progressions with steps inside/outside the 0.05 s dead band, zeros processed in between, then a step: the response must match, within 2 E_n at every sample, a fresh processor at one of the times the statement allows to be in effect). non-trivial = Step whose resolution allowance is < 0.1% of the step, every Fast/Long case, History with >= 2 in-band calls followed by an out-of-band one; distinct by hash",
+        "proptest cases of four kinds: Step (fresh processor, set_time(t) with t*fs log-uniform in [100, Nmax], settle at base - or, in a fifth of the cases with t >= 0.06 s, reach base under the fastest response and select t right before the step - in {0, U[-1,1], U[-10,10]}, step by {1, +-U[0.01,10]} - or, in 8% of the Step and Fast cases, a step between huge values of either sign (+-1e19..+-f32::MAX, also larger than f32::MAX across zero) -: coverage at sample round(t*fs/10) in [0.40,0.55] and at ceil(t*fs) >= 0.995; 1 in 20 with t beyond the 10 s clamp), Fast (t = u*2/fs incl. 0: within 0.5% after 8 samples), Long (t in (10,1000]: sample-for-sample equal to t = 10), History (1..40 set_time calls: absolute times and creep progressions with steps inside/outside the 0.05 s dead band, zeros processed in between, then a step: the response must match, within 2 E_n at every sample, a fresh processor at one of the times the statement allows to be in effect). non-trivial = Step whose resolution allowance is < 0.1% of the step, every Fast/Long case, History with >= 2 in-band calls followed by an out-of-band one; distinct by hash",
     );
     o.assumptions.push("an in-band set_time call may be ignored or honoured (the statement permits ignoring); a fresh processor responds like time 0".into());
     let (cases, max_n) = if quick { (150_000, 60_000.0) } else { (400_000, 480_000.0) };
